@@ -540,4 +540,45 @@ theorem affine_init_inv {loc scale : NArr ℝ} {d : AffineObj ℝ} (h : GenFam.A
   | none => rw [affine_init_none loc scale hb] at h; cases h
   | some s => rw [affine_init_eq loc scale hb] at h; exact ⟨s, rfl, (Option.some.inj h).symm⟩
 
+
+/-! ### `VmapMixture` -/
+
+theorem jnp_logSoftmax_eq (v : List ℝ) : Jnp.logSoftmax v = Families.logSoftmax v := by
+  rw [FamiliesPf.logSoftmax_eq]
+  simp only [Jnp.logSoftmax, FamiliesPf.jsum_eq, log_eq, exp_eq]
+
+/-- the generated `VmapMixture.__init__` on positive weights: the declared shapes are the component distribution's, the stored raw
+leaf is `log weights`, and the unwrapped `log_normalized_weights` is the hand model's `logNormWeights` -/
+theorem mixture_init_eq {X K : Type} (dist : VDist X K ℝ) (w : NArr ℝ) (hpos : ∀ x ∈ w.data, 0 < x) :
+    ∃ m, GenFam.VmapMixture.init dist w = some m ∧ m.shape = dist.shape ∧ m.cond_shape = dist.cond_shape ∧ m.dist = dist ∧
+      m.log_normalized_weights.args = w.data.map Real.log ∧
+      m.unwrap.log_normalized_weights = Families.logNormWeights w.data := by
+  refine ⟨{ shape := dist.shape, cond_shape := dist.cond_shape, dist := dist,
+            log_normalized_weights := Gen.Wr.Lambda.mk (fun (w : List ℝ) (_ : Unit) => Gen.mixtureLogNormalizedWeights w)
+              (Gen.mixtureRawInit w.data) () }, ?_, rfl, rfl, rfl, ?_, ?_⟩
+  · simp only [GenFam.VmapMixture.init, errorIf, leZero, any_leZero_false _ hpos, Bool.false_eq_true, if_false, Option.bind_some]
+  · simp only [Gen.mixtureRawInit, log_eq]
+  · simp only [MixtureObj.unwrap, Gen.Wr.Lambda.unwrap, Gen.mixtureLogNormalizedWeights, Gen.mixtureRawInit, jnp_logSoftmax_eq,
+      Families.logNormWeights]
+
+theorem mixture_init_none_iff {X K : Type} (dist : VDist X K ℝ) (w : NArr ℝ) :
+    GenFam.VmapMixture.init dist w = none ↔ ∃ x ∈ w.data, x ≤ 0 := by
+  have key : (List.map (fun x => decide (x ≤ 0)) w.data).any id = true ↔ ∃ x ∈ w.data, x ≤ 0 := by simp
+  rw [← key]
+  by_cases hany : (List.map (fun x => decide (x ≤ 0)) w.data).any id = true
+  · simp [GenFam.VmapMixture.init, errorIf, leZero, hany]
+  · simp [GenFam.VmapMixture.init, errorIf, leZero, hany]
+
+/-- the generated `_log_prob` is the hand model's `mixtureLogProb` over the components' values -/
+theorem mixture_logProb_eq {X K : Type} (m : MixtureU X K ℝ) (ws : List ℝ) (h : m.log_normalized_weights = Families.logNormWeights ws)
+    (x : X) (c : Option Unit) :
+    GenFam.mixtureLogProb m x c = Families.mixtureLogProb (m.dist.comps.map (fun d => d.logProb x ())) ws := by
+  simp only [GenFam.mixtureLogProb, vmapLogProb, h, Families.mixtureLogProb]
+
+/-- the generated `_sample` is the hand model's `mixtureSample` (key = categorical draw + second key) -/
+theorem mixture_sample_eq {X K : Type} (m : MixtureU X K ℝ) (key : Nat × K) (c : Option Unit) :
+    GenFam.mixtureSample m key c = Families.mixtureSample m.dist.comps key () := by
+  simp only [GenFam.mixtureSample, mixSplit, categorical, takeComponent, sampleOf, Families.mixtureSample]
+  cases Families.mixtureTake m.dist.comps key.1 <;> rfl
+
 end FamGenPf
